@@ -654,10 +654,8 @@ func (li LineItem) webVTTBytes(previous, next *LineItem) (c []byte) {
 		c = append(c, []byte("<c."+color+">")...)
 	}
 	if li.InlineStyle != nil {
-		for idx, tag := range li.InlineStyle.WebVTTTags {
-			if previous != nil && previous.InlineStyle != nil && len(previous.InlineStyle.WebVTTTags) > idx && tag.Name == previous.InlineStyle.WebVTTTags[idx].Name {
-				continue
-			}
+		// Tags shared with the previous item are still open
+		for _, tag := range li.InlineStyle.WebVTTTags[li.webVTTSharedTagsCount(previous):] {
 			c = append(c, []byte(tag.startTag())...)
 		}
 	}
@@ -668,16 +666,29 @@ func (li LineItem) webVTTBytes(previous, next *LineItem) (c []byte) {
 	}
 	c = append(c, []byte(escapeHTML(li.Text))...)
 	if li.InlineStyle != nil {
-		for i := len(li.InlineStyle.WebVTTTags) - 1; i >= 0; i-- {
-			tag := li.InlineStyle.WebVTTTags[i]
-			if next != nil && next.InlineStyle != nil && len(next.InlineStyle.WebVTTTags) > i && tag.Name == next.InlineStyle.WebVTTTags[i].Name {
-				continue
-			}
-			c = append(c, []byte(tag.endTag())...)
+		// Tags shared with the next item are left open
+		for i := len(li.InlineStyle.WebVTTTags) - 1; i >= li.webVTTSharedTagsCount(next); i-- {
+			c = append(c, []byte(li.InlineStyle.WebVTTTags[i].endTag())...)
 		}
 	}
 	if color != "" {
 		c = append(c, []byte("</c>")...)
+	}
+	return
+}
+
+// webVTTSharedTagsCount returns the number of leading tags (same name, classes and annotation) the item
+// shares with another item of the same line
+func (li LineItem) webVTTSharedTagsCount(other *LineItem) (n int) {
+	if li.InlineStyle == nil || other == nil || other.InlineStyle == nil {
+		return
+	}
+	for n < len(li.InlineStyle.WebVTTTags) && n < len(other.InlineStyle.WebVTTTags) {
+		a, b := li.InlineStyle.WebVTTTags[n], other.InlineStyle.WebVTTTags[n]
+		if a.Name != b.Name || a.Annotation != b.Annotation || strings.Join(a.Classes, ".") != strings.Join(b.Classes, ".") {
+			break
+		}
+		n++
 	}
 	return
 }
